@@ -213,6 +213,49 @@ def identifier_folding(ctx):
                         f'lower-cased token: identifiers that differ only '
                         f'in case would name different variables/labels',
                         'qbee/grammar.py', 1)
+    # the identifier actions do not run inside dotted_vars, so its own
+    # action folds the field names: every token it returns is lower-cased
+    for f in by_rule.get('dotted_vars', []):
+        construct = f'qbee/grammar.py:dotted_vars:{f.qualname}'
+        assigned = {}
+        for a in ast.walk(f.node):
+            if isinstance(a, ast.Assign) and len(a.targets) == 1 and \
+                    isinstance(a.targets[0], ast.Name):
+                assigned[a.targets[0].id] = a.value
+
+        def leaves(e, depth=0):
+            if isinstance(e, (ast.List, ast.Tuple)):
+                out = []
+                for x in e.elts:
+                    out += leaves(x, depth)
+                return out
+            if isinstance(e, ast.ListComp):
+                if any(g_.ifs for g_ in e.generators):
+                    return [e]
+                return leaves(e.elt, depth)
+            if isinstance(e, ast.Name) and e.id in assigned and depth < 4:
+                return leaves(assigned[e.id], depth + 1)
+            return [e]
+        unfolded = []
+        rets = [r for r in ast.walk(f.node) if isinstance(r, ast.Return)
+                and r.value is not None]
+        for r in rets:
+            for lf in leaves(r.value):
+                if not (isinstance(lf, ast.Call) and
+                        isinstance(lf.func, ast.Attribute) and
+                        lf.func.attr == 'lower'):
+                    unfolded.append(unparse(lf)[:40])
+        ctx.instance(rule, construct, sample={'unfolded': unfolded})
+        if unfolded or not rets:
+            ctx.finding(rule, construct,
+                        f'{f.qualname} returns {unfolded or "nothing"} '
+                        f'without lower-casing: field names after the first '
+                        f'dot keep the case they were written in and no '
+                        f'longer match the TYPE declaration',
+                        'qbee/grammar.py', f.line)
+    if not by_rule.get('dotted_vars'):
+        ctx.observe('dotted_vars has no parse action of its own: the '
+                    'identifier terminals must fold its names')
     g = repo.module('qbee.grammar')
     # Word(...) terminals only inside untyped_identifier
     words = [n for n in ast.walk(g.tree) if isinstance(n, ast.Call) and
